@@ -79,6 +79,7 @@ type Frame struct {
 	top      bool
 	curBlock int
 	frameAllowed func(comp string, r string, h Heap) string // for implicit frame invariants; nil if none
+	frameTargets []modTarget
 }
 
 func (u *Unit) newFrame(fn *ssa.Function, ct *Contract, parent *Frame) *Frame {
@@ -548,11 +549,13 @@ func (fr *Frame) loopHead(b *ssa.BasicBlock, li *loopInfo) Heap {
 			p := b.Preds[pi]
 			env := fr.loopEnv(li, fr.heapOut[p.Index], func(phi *ssa.Phi) Val { return fr.valOf(phi.Edges[pi]) })
 			fr.bindLoopLets(li, env)
-			for _, inv := range li.spec.Invs {
-				g := env.evalBool(inv.Expr)
-				u.curPos = token.NoPos
-				o := u.oblig("inv-init", fmt.Sprintf("loop %d invariant holds on entry: %s", li.ordinal, inv.Text), implies(edges[k], g), inv.Props)
-				o.Pos = inv.Where
+			for _, inv := range fr.activeInvs(li) {
+				for _, part := range splitConj(inv.Expr) {
+					g := env.evalBool(part)
+					u.curPos = token.NoPos
+					o := u.oblig("inv-init", fmt.Sprintf("loop %d invariant holds on entry: %s", li.ordinal, exprString(part)), implies(edges[k], g), inv.Props)
+					o.Pos = inv.Where
+				}
 			}
 		}
 	}
@@ -601,7 +604,7 @@ func (fr *Frame) loopHead(b *ssa.BasicBlock, li *loopInfo) Heap {
 	if li.spec != nil {
 		env := fr.loopEnv(li, heap, func(phi *ssa.Phi) Val { return fr.vals[phi] })
 		fr.bindLoopLets(li, env)
-		for _, inv := range li.spec.Invs {
+		for _, inv := range fr.activeInvs(li) {
 			u.assume(implies(fr.reach[b.Index], env.evalBool(inv.Expr)))
 		}
 		if li.spec.Decreases != nil {
@@ -643,7 +646,31 @@ func (fr *Frame) frameFormula(c string, h Heap) string {
 		return ""
 	}
 	body := implies(and(app("<", "0", "r!f"), app("<=", "r!f", fr.ctr(fr.entryHeap)), not(allowed)), eq(sel(cur, "r!f"), sel(old, "r!f")))
-	return "(forall ((r!f Int)) " + body + ")"
+	// field-level targets: at those objects the unlisted fields keep their values
+	var fieldFacts []string
+	var fieldRefs []string
+	for _, t := range fr.frameTargets {
+		if t.comp != c || t.field < 0 {
+			continue
+		}
+		st := u.so.structs[t.structSort]
+		for i := 0; i < st.NumFields(); i++ {
+			listed := false
+			for _, t2 := range fr.frameTargets {
+				if t2.comp == c && t2.ref == t.ref && t2.field == i {
+					listed = true
+				}
+			}
+			if !listed {
+				fieldFacts = append(fieldFacts, eq(u.so.getField(t.structSort, sel(cur, t.ref), i), u.so.getField(t.structSort, sel(old, t.ref), i)))
+			}
+		}
+		fieldRefs = append(fieldRefs, not(eq("r!f", t.ref)))
+	}
+	if len(fieldRefs) > 0 {
+		body = implies(and(app("<", "0", "r!f"), app("<=", "r!f", fr.ctr(fr.entryHeap)), not(allowed), and(fieldRefs...)), eq(sel(cur, "r!f"), sel(old, "r!f")))
+	}
+	return and("(forall ((r!f Int)) "+body+")", and(fieldFacts...))
 }
 
 func (fr *Frame) loopLatch(from, head *ssa.BasicBlock, li *loopInfo) {
@@ -672,11 +699,13 @@ func (fr *Frame) loopLatch(from, head *ssa.BasicBlock, li *loopInfo) {
 	}
 	env := fr.loopEnv(li, h, func(phi *ssa.Phi) Val { return fr.valOf(phi.Edges[pi]) })
 	fr.bindLoopLets(li, env)
-	for _, inv := range li.spec.Invs {
-		g := env.evalBool(inv.Expr)
-		u.curPos = token.NoPos
-		o := u.oblig("inv-preserve", fmt.Sprintf("loop %d invariant preserved: %s", li.ordinal, inv.Text), implies(edge, g), inv.Props)
-		o.Pos = inv.Where
+	for _, inv := range fr.activeInvs(li) {
+		for _, part := range splitConj(inv.Expr) {
+			g := env.evalBool(part)
+			u.curPos = token.NoPos
+			o := u.oblig("inv-preserve", fmt.Sprintf("loop %d invariant preserved: %s", li.ordinal, exprString(part)), implies(edge, g), inv.Props)
+			o.Pos = inv.Where
+		}
 	}
 	if li.spec.Decreases != nil {
 		m := env.eval(li.spec.Decreases.Expr)
@@ -692,4 +721,16 @@ func (fr *Frame) loopLatch(from, head *ssa.BasicBlock, li *loopInfo) {
 		// no termination measure given
 		u.oblig("decreases", fmt.Sprintf("loop %d of %s has no decreases clause", li.ordinal, fr.fn.Name()), implies(edge, "false"), nil).Detail = "missing-measure"
 	}
+}
+
+// activeInvs: invariants tagged with property ids are only used when checking one of those properties.
+func (fr *Frame) activeInvs(li *loopInfo) []*Clause {
+	var out []*Clause
+	for _, inv := range li.spec.Invs {
+		if !fr.u.active(inv.Props) {
+			continue
+		}
+		out = append(out, inv)
+	}
+	return out
 }
